@@ -370,7 +370,15 @@ func lease6(r *Run) {
 				m.AddOption(dhcpv6.OptServerID(&dhcpv6.DUIDLL{HWType: iana.HWTypeEthernet, LinkLayerAddr: net.HardwareAddr{2, 0, 0, 0, 0, 9}}))
 			}
 			if tp.withIANA {
-				m.AddOption(&dhcpv6.OptIANA{IaId: [4]byte{1, 2, 3, 4}, T1: time.Hour, T2: 2 * time.Hour})
+				// an IA_NA may hold several addresses (and a status code): the REQUEST carries it whole
+				ia := &dhcpv6.OptIANA{IaId: [4]byte{1, 2, 3, 4}, T1: time.Hour, T2: 2 * time.Hour}
+				for k := 0; k < len(solXid)%2+int(req.TransactionID[2])%3; k++ {
+					ia.Options.Add(&dhcpv6.OptIAAddress{IPv6Addr: net.ParseIP(fmt.Sprintf("2001:db8::%d", k+1)), PreferredLifetime: time.Hour, ValidLifetime: 2 * time.Hour})
+				}
+				if req.TransactionID[1]%2 == 0 {
+					ia.Options.Add(&dhcpv6.OptStatusCode{StatusCode: 0, StatusMessage: "ok"})
+				}
+				m.AddOption(ia)
 			}
 			if tp.kind == 3 {
 				m.TransactionID[0] ^= 0xff
@@ -459,9 +467,30 @@ func lease6(r *Run) {
 			if !bytes.Equal(res.TransactionID[:], rq.TransactionID[:]) {
 				r.Fail("c13-v6-pairing", cs, "the returned message does not carry the REQUEST's transaction id")
 			}
+			if sel := firstAdvertise(w1, solXid); sel != nil && rq.Options.OneIANA() != nil && sel.Options.OneIANA() != nil &&
+				!bytes.Equal(rq.Options.OneIANA().ToBytes(), sel.Options.OneIANA().ToBytes()) {
+				r.Fail("c13-v6-request-ia-na", cs, fmt.Sprintf("the REQUEST's IA_NA %x is not the advertised one %x", rq.Options.OneIANA().ToBytes(), sel.Options.OneIANA().ToBytes()))
+			}
 			if rq.GetOneOption(dhcpv6.OptionClientID) == nil || rq.GetOneOption(dhcpv6.OptionServerID) == nil || rq.Options.OneIANA() == nil {
 				r.Fail("c13-v6-request-fields", cs, "REQUEST lacks client id, server id or IA_NA")
 			}
 		}
 	}
+}
+
+// firstAdvertise: the first datagram of the first phase that the SOLICIT call accepts as an ADVERTISE
+func firstAdvertise(ws [][]byte, xid []byte) *dhcpv6.Message {
+	for _, w := range ws {
+		m, err := dhcpv6.MessageFromBytes(w)
+		if err != nil || !bytes.Equal(m.TransactionID[:], xid) {
+			continue
+		}
+		if m.MessageType == dhcpv6.MessageTypeAdvertise {
+			return m
+		}
+		if m.MessageType == dhcpv6.MessageTypeReply {
+			return nil
+		}
+	}
+	return nil
 }
